@@ -97,6 +97,11 @@ CHECKS = {
         "id state gives the same structure/ids/string and keeps the id counter above the decoded ids, the CLI JSON reads back. SMT formulas with every literal of <= 2/3 characters over 15 escape-relevant characters survive pickling.",
    note="Trusted: reference traversal; next_id reset simulates a fresh interpreter. [decoder]. Outside: literals that ISLa's text parser rejects, larger inputs.",
    design="§3 C17"),
+ "C18": dict(level="other", technique="CrossHair (z3): solver-driven exhaustive enumeration of bounded inputs; call sequences on long-lived ISLaSolver objects vs. the reference semantics",
+   text=BOUNDED + "Every closed tree of the assignment grammar with <= 2/3 statements + 9 non-members x 10 constraints, on one solver object per constraint: check(tree) = check(str) = reference verdict, parse raises "
+        "SyntaxError/SemanticError exactly when due, answers are stable across a call sequence (parse with skip_check, then check/parse again), repair returns valid inputs unchanged.",
+   note="Trusted: checks/refsem.py. [decoder]. Outside: repair/mutate of invalid inputs (they call the solver loop and hit a TypeError of the installed `returns` library on the unchanged tree).",
+   design="§3 C18"),
 }
 NOT_APPLICABLE = {
  "C21": "needs end-to-end solve() on the shipped formalizations plus external validators (docutils, XML parser): the solver loop is a heap algorithm around Z3 calls that no engine here can encode, and the validators are not solver objects",
